@@ -22,6 +22,10 @@ type C07 struct {
 	knownHits  int
 	extreme    int
 	samples    []interface{}
+	// SkipSoftWhenInexact: used when this oracle serves another property (C18): the "within one base
+	// unit" clauses are only evaluated in the ordinary stratum; exact clauses always are.
+	SkipSoftWhenInexact bool
+	skippedSoft         int
 }
 
 func NewC07(k *KnownSet) *C07 {
@@ -49,7 +53,7 @@ func (m *C07) AfterTx(e *eng.Engine, t *eng.TxRec) {
 	m.buys++
 	where := fmt.Sprintf("tx step %d (%s)", t.Step, t.Tag)
 	pre, post := t.Pre.V(), t.Post.V()
-	viol := func(clause, msg string) { e.Violate("C07", clause, where+": "+msg) }
+	viol := func(clause, msg string) { e.Violate(m.P, clause, where+": "+msg) }
 
 	bf, sf := new(big.Rat), new(big.Rat)
 	if pre.FeeParams != nil {
@@ -293,9 +297,13 @@ func (m *C07) AfterTx(e *eng.Engine, t *eng.TxRec) {
 	// ---- coins
 	pool := FeePool()
 	soft := func(clause, msg string) {
+		if inexact && m.SkipSoftWhenInexact {
+			m.skippedSoft++
+			return
+		}
 		if inexact && m.Known.Has("F-C07") {
 			m.knownHits++
-			e.Rep.KnownFinding("C07", "F-C07 a settlement product needing more than 34 significant digits is rounded before truncation (coin clause '"+clause+"' off in the extreme stratum)")
+			e.Rep.KnownFinding(m.P, "F-C07 a settlement product needing more than 34 significant digits is rounded before truncation (coin clause '"+clause+"' off in the extreme stratum)")
 			return
 		}
 		viol(clause, msg)
@@ -412,5 +420,8 @@ func (m *C07) Finish(e *eng.Engine, cov map[string]interface{}) {
 	cov["fills_breakdown"] = m.breakdown.JSON()
 	cov["messages_in_extreme_stratum"] = m.extreme
 	cov["known_finding_hits"] = m.knownHits
+	if m.SkipSoftWhenInexact {
+		cov["soft_clauses_skipped_in_extreme_stratum"] = m.skippedSoft
+	}
 	cov["samples"] = m.samples
 }
